@@ -27,7 +27,7 @@ RULE = ("one run = 1-3 regular and 1-2 operating-point actors subscribed for rep
         "sequence (kind, actor)")
 QUICK_RUNS = 4000
 THOROUGH_RUNS = 250_000
-EXPECT_PROBES = ["late_result_of_older_request", "two_component_groups", "bounds_update_between_proposals", "only_regular_changed", "only_op_changed", "partial_failure_result",
+EXPECT_PROBES = ["bounds_with_older_timestamp", "late_result_of_older_request", "two_component_groups", "bounds_update_between_proposals", "only_regular_changed", "only_op_changed", "partial_failure_result",
                  "error_result", "expiry", "bounds_shrink_below_sum"]
 
 IDS = frozenset({8, 18})
@@ -153,7 +153,13 @@ def scenario(sim: Sim) -> None:
                 st["sb_prev"], st["sb"] = old, sb2
                 st["last_event"] = "bounds"
                 st["nbounds_since_prop"] += 1
-                h.publish_bounds(g, sb2)
+                # the timestamp a pool puts on its bounds is the newest timestamp of the component data it used, so a
+                # later message can carry an older timestamp; "latest" means latest received
+                back = 0
+                if ch.chance("older_timestamp", 0.25):
+                    back = ch.choice("stamp_back_us", [1, 5_000, 2_000_000])
+                    sim.probe("bounds_with_older_timestamp")
+                h.publish_bounds(g, sb2, stamp_back_us=back)
                 await asyncio.sleep(0.002)
                 r1, o1, _s = targets(g)
                 if r1 != r0 and o1 == o0:
